@@ -221,9 +221,11 @@ def param_variants(name, rule):
             out.append({'tag': 'bad-branch', 'ok': False, 'branch': b,
                         'branch_from': None})
         if name == 'CreateBranch':
-            for f in BAD_FROM:
-                out.append({'tag': 'bad-from', 'ok': False,
-                            'branch': GOOD_BRANCHES[0], 'branch_from': f})
+            # an ill-formed branching point, for every kind of branch
+            for b in (GOOD_BRANCHES[0], GOOD_BRANCHES[2], GOOD_BRANCHES[3]):
+                for f in BAD_FROM:
+                    out.append({'tag': 'bad-from', 'ok': False,
+                                'branch': b, 'branch_from': f})
             out.append({'tag': 'extra-json', 'ok': True,
                         'branch': GOOD_BRANCHES[1], 'branch_from': None,
                         'extra': {'unexpected': 'x'}})
@@ -722,7 +724,10 @@ def gen_thread_case(rng):
         elif ep in ('CreateBranch', 'DeleteBranch'):
             r['branch'] = rng.choice(THREAD_BAD_BRANCHES) \
                 if rng.random() < 0.25 \
-                else 'development/%d.%d' % (20 + i, rng.randrange(9))
+                else rng.choice(['development/%d.%d', 'development/%d.%d',
+                                 'stabilization/%d.%d.1',
+                                 'hotfix/%d.%d.0']) % (20 + i,
+                                                       rng.randrange(9))
             if ep == 'CreateBranch' and rng.random() < 0.5:
                 r['branch_from'] = rng.choice(GOOD_FROM[1:] + BAD_FROM[:1])
         reqs.append(r)
